@@ -172,17 +172,16 @@ def r_cpu_helpers(e, R):
         if isinstance(n, ast.Assign) and isinstance(n.targets[0], ast.Name) and isinstance(n.value, ast.Constant) and isinstance(n.value.value, str) \
                 and n.value.value.startswith("/sys/fs/cgroup"):
             fvars[n.targets[0].id] = n.value.value
-    v2 = [k for k, v in fvars.items() if v.endswith("cpu.max")]
-    v1 = [k for k, v in fvars.items() if "cfs_" in v]
-    if len(v2) != 1 or len(v1) != 2:
-        # the names may be literals used in place (or module constants, folded by the canonicaliser): fall back to the literal text
-        fvars = {v: v for v in lits}
-        v2 = [k for k in fvars if k.endswith("cpu.max")]
-        v1 = [k for k in fvars if "cfs_" in k]
+    # the files are identified by their literal path; a use is the literal itself or a local / module name bound to it (names bound once to
+    # a literal are folded by the canonicaliser)
+    name_of = dict(fvars)                      # local name -> literal
+    fvars = {v: v for v in lits}
+    v2 = [k for k in fvars if k.endswith("cpu.max")]
+    v1 = sorted(k for k in fvars if "cfs_" in k)
     if len(v2) != 1 or len(v1) != 2:
         raise AnalysisError("cgroup helper: file name variables not recognised")
     def is_nm(x, nm):
-        return (isinstance(x, ast.Name) and x.id == nm) or (isinstance(x, ast.Constant) and x.value == nm)
+        return (isinstance(x, ast.Name) and name_of.get(x.id) == nm) or (isinstance(x, ast.Constant) and x.value == nm)
     exists = lambda nm: (lambda x: isinstance(x, ast.Call) and norm(x.func).endswith("path.exists") and x.args and is_nm(x.args[0], nm))
     opens = lambda nm: (lambda n: any(isinstance(c.func, ast.Name) and c.func.id == "open" and c.args and is_nm(c.args[0], nm)
                                       for c in calls_in(n)) or (n.kind == "with_enter" and isinstance(n.ast.context_expr, ast.Call) and norm(n.ast.context_expr.func) == "open"
@@ -208,7 +207,7 @@ def r_cpu_helpers(e, R):
             withs = [n for n in func_nodes(cg) if isinstance(n, ast.With)]
             for w_ in withs:
                 ce = w_.items[0].context_expr
-                fname = (ce.args[0].id if isinstance(ce.args[0], ast.Name) else ce.args[0].value if isinstance(ce.args[0], ast.Constant) else None) \
+                fname = (name_of.get(ce.args[0].id) if isinstance(ce.args[0], ast.Name) else ce.args[0].value if isinstance(ce.args[0], ast.Constant) else None) \
                     if isinstance(ce, ast.Call) and norm(ce.func) == "open" and ce.args else None
                 if fname is None:
                     continue
